@@ -20,7 +20,10 @@ LEVEL = "exploration"
 RULE = ("accept direction: every accepted input of W-TOK (V_full<=3 with/without preamble, "
         "V_small<=5), W-GEN, per-command tag-subset uses, W-MUT, W-META; removal direction: "
         "for generated valid scripts and for every command x tag subset x 4 contexts, each "
-        "single needed extension and random subsets removed from the require. Non-trivial = "
+        "single needed extension and random subsets removed from the require; look-alike "
+        "direction: generated bodies whose require names only a string resembling the needed "
+        "extension (comma lists inside one string, padding, affixes, escaped quotes), as a "
+        "single string and inside a list. Non-trivial = "
         "accepted input containing at least one extension-bound construct, or a removal case; "
         "distinct = distinct input byte strings.")
 ASSUMPTIONS = [
@@ -29,9 +32,9 @@ ASSUMPTIONS = [
     "the line number in the removal message is not judged here (C18 owns positions)",
 ]
 FLOORS = {
-    "quick": {"accepted-with-ext-constructs": 3000, "removal-cases": 5000,
+    "quick": {"accepted-with-ext-constructs": 3000, "removal-cases": 5000, "lookalike-cases": 20000,
               "constructs-checked": 10000},
-    "thorough": {"accepted-with-ext-constructs": 60000, "removal-cases": 100000,
+    "thorough": {"accepted-with-ext-constructs": 60000, "removal-cases": 100000, "lookalike-cases": 400000,
                  "constructs-checked": 200000},
 }
 SHARD_TIMEOUT = {"quick": 600, "thorough": 3000}
@@ -43,6 +46,9 @@ def plan(tier, seed):
     k = 8 if tier == "quick" else 32
     for i, (s, e) in enumerate(split(n, k)):
         shards.append({"w": "removal-gen", "n": e - s, "rs": seed * 31337 + i})
+    n = 400 if tier == "quick" else 8000
+    for i, (s, e) in enumerate(split(n, 8 if tier == "quick" else 16)):
+        shards.append({"w": "lookalike", "n": e - s, "rs": seed * 65537 + i})
     names = [k for k, v in gen.SPEC.items() if v["tests"] == 0 and k not in ("require", "else")]
     for i, (s, e) in enumerate(split(len(names), 8)):
         shards.append({"w": "removal-uses", "names": names[s:e], "rs": seed * 271 + i,
@@ -71,7 +77,11 @@ def walk(result, res=None):
                 vals = v if isinstance(v, list) else [v]
                 for x in vals:
                     if isinstance(x, str):
-                        loaded.add(x.strip('"'))
+                        b = x.encode("utf-8", "surrogatepass")
+                        if b[:1] == b'"' and b[-1:] == b'"' and len(b) >= 2:
+                            loaded.add(rsieve.decode_quoted(b).decode("utf-8", "replace"))
+                        else:
+                            loaded.add(x.strip('"'))
             return
         ext = rsieve.EXT_OF_COMMAND.get(name)
         if ext:
@@ -199,9 +209,51 @@ def run_removal_uses(shard, res):
                     check_removal(body, exts, {e}, rng, res, "removal-uses")
 
 
+def lookalikes(e):
+    """capability strings that contain / resemble the name e but are not e"""
+    return [e + ",x", "x," + e, e + ",", "," + e, e + ",copy", "copy," + e, " " + e, e + " ",
+            e + "\n", "\t" + e, e + ";", "[" + e + "]", '\\"' + e + '\\"', e[:-1], e + "s",
+            e + " x", "x " + e, "x-" + e, e + "-x", 'a\\",' + e, e + ',\\"b', e + "\r\n",
+            e + "," + e, "vnd." + e, e + "/" + e, e + "'", ":" + e, e + ".", ""]
+
+
+def run_lookalike(shard, res):
+    """A require that only names something that LOOKS like the extension (a comma list in
+    one string, padding, affixes) must not unlock the extension's constructs."""
+    rng = random.Random(shard["rs"])
+    g = gen.ScriptGen(rng, maxdepth=2, hostile=0.2)
+    done = 0
+    while done < shard["n"]:
+        g.maxdepth = rng.choice([0, 1, 2])
+        body, exts = g.body(rng.choice([1, 1, 2]))
+        if not exts:
+            continue
+        done += 1
+        e = rng.choice(exts)
+        others = [x for x in exts if x != e]
+        for look in lookalikes(e):
+            tok = b'"' + look.encode() + b'"'
+            if rsieve.decode_quoted(tok) in (x.encode() for x in exts):
+                continue
+            ot = [b'"%s"' % x.encode() for x in others]
+            forms = [
+                g._req_list(others) * bool(others) + [b"require", tok, b";"],
+                [b"require", b"["] + gen._commas(ot + [tok]) + [b"]", b";"],
+                [b"require", b"["] + gen._commas([tok] + ot) + [b"]", b";"],
+            ]
+            for req in forms:
+                toks = req + body
+                data = gen.join_tokens(toks)
+                res.count("lookalike-cases")
+                res.observe("lookalike:extension", e)
+                check_accept("lookalike", data, {"toks": toks}, res)
+
+
 def run_shard(tier, shard, res: Result):
     w = shard["w"]
-    if w == "removal-gen":
+    if w == "lookalike":
+        run_lookalike(shard, res)
+    elif w == "removal-gen":
         run_removal_gen(shard, res)
     elif w == "removal-uses":
         run_removal_uses(shard, res)
